@@ -209,6 +209,9 @@ def run(ctx):
     from .c08 import wrapper_kind
     wrapper_kind(ctx, 'C04.R6')
 
+    # ---- R7 ----------------------------------------------------------------------
+    _standard_decorators(ctx, 'C04.R7')
+
 
 def _isomorphic(ctx):
     """R5: whose signature is introspected.  @beartype checks a ``functools.wraps`` wrapper against the
@@ -277,3 +280,90 @@ def keywordable_set(ctx, RULE):
                 bad2 = f'{f.describe()}: keywordable={sorted(kw) if isinstance(kw, set) else kw}, expected {sorted(set(f.flex) | set(f.kwonly))}'
     ctx.ob(RULE, 'keywordable-iff-varkw', W, f'the set exists iff the callable has **kwargs ({n} wrappers)', bad is None, bad or '')
     ctx.ob(RULE, 'keywordable-set', W, f'the set is exactly the keywordable parameter names ({n} wrappers)', bad2 is None, bad2 or '')
+
+
+def _standard_decorators(ctx, RULE):
+    """Callables already wrapped by a standard-library decorator: the decorator is re-applied, with the parameters the user
+    gave it, around the checked inner callable."""
+    from sa.fold import AObj, FuncVal, Inst, _Abort, _Raise, _PyCallable, _call_function
+    from . import _gen
+    F = _gen.engines(ctx)[0].f
+    Q = 'beartype._decor._nontype._api.decorstandard'
+    mm = ctx.repo.mod(Q)
+    ctx.rule(RULE, 'standard-library wrappers are re-created, not lost: beartype_func_functools_lru_cache, interpreted over '
+             'maxsize ∈ {128, None, 0} × typed ∈ {False, True}, yields lru_cache(maxsize=same, typed=same)(checked inner '
+             'callable); beartype_func_contextlib_contextmanager yields the original context-manager factory applied to '
+             'the checked generator function')
+
+    class _Fn(AObj):
+        def __init__(self, name):
+            self.name = name
+
+        def __repr__(self):
+            return f'<{self.name}>'
+
+    class _Lru(AObj):
+        def __init__(self, inner, maxsize, typed):
+            self.__wrapped__, self.maxsize, self.typed = inner, maxsize, typed
+
+        def cache_parameters(self):
+            return {'maxsize': self.maxsize, 'typed': self.typed}
+
+        def cache_info(self):
+            i = AObj()
+            i.hits, i.misses, i.maxsize, i.currsize = 0, 0, self.maxsize, 0
+            return i
+
+        def __repr__(self):
+            return f'<lru_cache(maxsize={self.maxsize}, typed={self.typed}) of {self.__wrapped__!r}>'
+    saved, saved_ext = dict(F.stubs), dict(F.ext_stubs)
+    F.stubs['beartype._util.api.standard.utilfunctools.is_func_functools_lru_cache'] = lambda e, a, k: isinstance(a[0], _Lru)
+    F.stubs['beartype._util.func.utilfuncwrap.unwrap_func_once'] = lambda e, a, k: a[0].__wrapped__
+    F.stubs['beartype._decor._nontype.decornontype.beartype_nontype'] = \
+        lambda e, a, k: Inst('Checked', (repr(k.get('obj', a[0] if a else None)),))
+
+    def lru(env, a, k):
+        maxsize = k.get('maxsize', a[0] if a else 128)
+        typed = k.get('typed', a[1] if len(a) > 1 else False)
+        return _PyCallable(lambda f: _Lru(f, maxsize, typed))
+    F.ext_stubs['functools.lru_cache'] = lru
+    try:
+        fn = F.const(Q, 'beartype_func_functools_lru_cache')
+        ctx.require(isinstance(fn, FuncVal), 'anchor vanished: beartype_func_functools_lru_cache')
+        for maxsize in (128, None, 0):
+            for typed in (False, True):
+                inner = _Fn('inner function')
+                p = _Lru(inner, maxsize, typed)
+                try:
+                    out = _call_function(F, fn, [p], {'conf': 'CONF'}, 1)
+                except (_Abort, _Raise) as ex:
+                    ctx.require(False, f'cannot interpret {fn.qual}: {ex}')
+                ok = isinstance(out, _Lru) and out is not p and out.maxsize == maxsize and out.typed is typed and \
+                    isinstance(out.__wrapped__, Inst) and out.__wrapped__.args == (repr(inner),)
+                ctx.ob(RULE, f'lru_cache:maxsize={maxsize}:typed={typed}', mm.where(fn.node),
+                       'the memoising wrapper is re-created with the user\'s parameters around the checked inner callable',
+                       ok, f'{p!r} evaluates to {out!r}')
+        fn2 = F.const(Q, 'beartype_func_contextlib_contextmanager')
+        ctx.require(isinstance(fn2, FuncVal), 'anchor vanished: beartype_func_contextlib_contextmanager')
+        gen = _Fn('generator function')
+        outer = AObj()
+        outer.__wrapped__ = gen
+        made = []
+        factory = _PyCallable(lambda f: made.append(f) or ('context-manager-of', f))
+        saved_b = F.builtin_hook
+        F.builtin_hook = lambda n_, a, k: (True if n_ == 'callable' and a and isinstance(a[0], _PyCallable) else (
+            saved_b(n_, a, k) if saved_b else NotImplemented))
+        try:
+            out = _call_function(F, fn2, [], {'func': outer, 'func_contextmanager': factory, 'conf': 'CONF'}, 1)
+        except (_Abort, _Raise) as ex:
+            ctx.require(False, f'cannot interpret {fn2.qual}: {ex}')
+        finally:
+            F.builtin_hook = saved_b
+        ok = isinstance(out, tuple) and out[0] == 'context-manager-of' and isinstance(out[1], Inst) and out[1].args == (repr(gen),)
+        ctx.ob(RULE, 'contextmanager:re-applied', mm.where(fn2.node),
+               'the context-manager factory is re-applied to the checked generator function', ok, f'evaluates to {out!r}')
+    finally:
+        F.stubs.clear()
+        F.stubs.update(saved)
+        F.ext_stubs.clear()
+        F.ext_stubs.update(saved_ext)
